@@ -18,6 +18,7 @@ inductive Val where
   | obj (l : List (String × Val))
 
 structure Item where
+  asI32 : Bool
   asId : Bool
   key : String
   val : Val
@@ -73,6 +74,7 @@ def deliverText (schema : Schema) (it : Item) : Key :=
 /-- binary: a string key → `visit_str`; a token id → `visit_u16(id)` under `deserialize_u16`,
 else the resolver's name, else (`FailedResolveStrategy::Ignore`) a name no field answers to -/
 def deliverBin (schema : Schema) (it : Item) : Key :=
+  if it.asI32 then .other else   -- an I32 key: `visit_i32`
   match it.asId, nameId it.key with
   | true, some id =>
     if requestsU16 schema then .u16 id
@@ -100,7 +102,8 @@ def parseItem (s : String) : Option Item :=
   | k :: rest =>
     let v := "=".intercalate rest
     let (asId, k) := if k.startsWith "#" then (true, (k.drop 1).toString) else (false, k)
-    (parseVal 3 v).map fun v => { asId, key := k, val := v }
+    let (asI32, k) := if k.startsWith "%" then (true, (k.drop 1).toString) else (false, k)
+    (parseVal 3 v).map fun v => { asI32, asId, key := k, val := v }
   | _ => none
 
 def parsePairs (s : String) : Option (List Item) :=
